@@ -21,12 +21,15 @@ CONSTANTS Objs, MaxRevs, Styles, MaxPieces,
           ZeroFree,       \* TRUE: listing object 0 again in an update is explored as a free choice
           STRICT_LENGTH   \* TRUE: no carve-out for ShortIntoTrailingWS (negative control)
 
+TrailerKeys == {"ID", "Info", "XX"}
+NoTrailer == [k \in TrailerKeys |-> 0]
+
 VARIABLES mode, hist, phase, cur, part, xref, seen, trl, body
 vars == <<mode, hist, phase, cur, part, xref, seen, trl, body>>
 
-Init == /\ mode \in {"history", "extent"}
+Init == /\ mode \in {"history", "extent", "trailer"}
         /\ hist = <<>> /\ phase = "build" /\ cur = 0 /\ part = "none"
-        /\ xref = <<>> /\ seen = {} /\ trl = 0 /\ body = <<>>
+        /\ xref = <<>> /\ seen = {} /\ trl = NoTrailer /\ body = <<>>
 
 ---------------------------------------------------------------------------
 \* building the history
@@ -35,17 +38,29 @@ StateNow == IF Len(hist) = 0 THEN [n \in Objs |-> Absent] ELSE StateAfter(hist, 
 
 \* object 0 has to be listed when the free list changes (an object is freed
 \* into it); otherwise listing it again is the writer's choice
-ZeroChoices(ops, k) == IF k = 1 \/ \E n \in Objs : ops[n] = "freeb" THEN {TRUE} ELSE IF ZeroFree THEN BOOLEAN ELSE {FALSE}
+ZeroChoices(ops, k) == IF mode = "trailer" THEN {k = 1} ELSE IF k = 1 \/ \E n \in Objs : ops[n] = "freeb" THEN {TRUE} ELSE IF ZeroFree THEN BOOLEAN ELSE {FALSE}
 \* subsection styles matter for tables only
-StyleChoices(kind, k) == IF k = 1 \/ kind = "stream" THEN {"runs"} ELSE Styles
+StyleChoices(kind, k) == IF mode = "trailer" \/ k = 1 \/ kind = "stream" THEN {"runs"} ELSE Styles
+
+\* mode "history": every operation, trailers with every optional key;
+\* mode "trailer": every choice of optional trailer keys per revision, over a
+\* few histories that have tables, streams and hybrid sections (object 1 is
+\* retired by the first revision and may come back hidden)
+First == CHOOSE n \in Objs : \A m \in Objs : n <= m
+OpsChoices(k) ==
+  IF mode = "history" THEN [Objs -> OpNames]
+  ELSE IF k = 1 THEN {[n \in Objs |-> IF n = First THEN "freer" ELSE "def"]}
+  ELSE {[n \in Objs |-> "keep"], [n \in Objs |-> IF n = First THEN "hdef" ELSE "keep"]}
+TrChoices == IF mode = "history" THEN {<<"Info", "XX">>} ELSE TrailerChoices
+RevBound == IF mode = "history" THEN MaxRevs ELSE 3
 
 AddRevision ==
-  /\ mode = "history" /\ phase = "build" /\ Len(hist) < MaxRevs
-  /\ \E kind \in Kinds, ops \in [Objs -> OpNames] :
+  /\ mode \in {"history", "trailer"} /\ phase = "build" /\ Len(hist) < RevBound
+  /\ \E kind \in Kinds, ops \in OpsChoices(Len(hist) + 1), tr \in TrChoices :
        LET k == Len(hist) + 1 IN
        /\ RevOK(StateNow, [kind |-> kind, ops |-> ops], k)
        /\ \E zero \in ZeroChoices(ops, k), style \in StyleChoices(kind, k) :
-            hist' = Append(hist, [kind |-> kind, ops |-> ops, zero |-> zero, style |-> style])
+            hist' = Append(hist, [kind |-> kind, ops |-> ops, tr |-> tr, zero |-> zero, style |-> style])
   /\ UNCHANGED <<mode, phase, cur, part, xref, seen, trl, body>>
 
 ---------------------------------------------------------------------------
@@ -58,14 +73,19 @@ Objects == [objects |-> ObjectsOf(hist)]
 
 \* findXRef: the last startxref names the newest section
 StartRead ==
-  /\ mode = "history" /\ phase = "build" /\ Len(hist) >= 1
+  /\ mode \in {"history", "trailer"} /\ phase = "build" /\ Len(hist) >= 1
   /\ phase' = "read" /\ cur' = Len(hist) /\ part' = "main"
   /\ seen' = {<<Len(hist), "main">>}
   /\ UNCHANGED <<mode, hist, xref, trl, body>>
 
 \* `if first { copy the trailer entries }': the dictionary of the table (for a
 \* hybrid section: of the table, not of the /XRefStm stream) or of the stream
-TakeTrailer == trl' = IF trl = 0 THEN cur ELSE trl
+\* (with TRAILERMERGE: the defective variant without the `first' flag)
+Present(k) == IF HasKey(hist[cur], k) THEN cur ELSE 0
+TakeTrailer ==
+  trl' = IF TRAILERMERGE THEN [k \in TrailerKeys |-> IF trl[k] # 0 THEN trl[k] ELSE Present(k)]
+         ELSE IF trl["ID"] = 0 THEN [k \in TrailerKeys |-> Present(k)]
+         ELSE trl
 
 \* case "xref": readXRefTable, then the /XRefStm of the same section
 ReadTable ==
@@ -142,10 +162,10 @@ KeyOK ==
            IF p.kind = "obj" THEN p.key = WrittenKey(scope, ObjectAt(F, p.off))
            ELSE p.key = Plain /\ p.ckey = WrittenKey(scope, CHOOSE o \in RangeOf(F.objects) : o.n = p.stm)
 \* the trailer reported is the newest one
-TrailerOK == phase = "done" => trl = RefTrailer(hist)
+TrailerOK == phase = "done" => \A k \in TrailerKeys : trl[k] = RefTrailer(hist)[k]
 \* the file built for the history means what the history means (PdfFile!Lookup)
 FileOK ==
-  (mode = "history" /\ phase = "build" /\ Len(hist) >= 1) =>
+  (mode \in {"history", "trailer"} /\ phase = "build" /\ Len(hist) >= 1) =>
     LET F == File IN \A n \in ProbeNums, g \in ProbeGens : Lookup(F, n, g) = RefPhys(hist, n, g)
 
 \* stream extent, for every end-of-line marker and every declared length
